@@ -236,8 +236,24 @@ func ruleX2(c *an.Ctx) {
 			return
 		}
 		n := 0
+		fam := map[*ssa.Function]bool{}
+		for _, h := range familyOf(p, fn, 2) {
+			fam[h] = h != fn
+		}
 		an.Instrs(fn, func(in ssa.Instruction) {
 			what, ok := sitePred(in)
+			if !ok {
+				// the effect may have been moved into a private helper: the call is the site
+				if cl := an.AsCallAny(in); cl != nil {
+					if h := cl.Common().StaticCallee(); h != nil && fam[h] {
+						an.Instrs(h, func(x ssa.Instruction) {
+							if w2, ok2 := sitePred(x); ok2 && !ok {
+								what, ok = w2+" in "+h.Name(), true
+							}
+						})
+					}
+				}
+			}
 			if !ok {
 				return
 			}
@@ -402,7 +418,7 @@ func ruleX3(c *an.Ctx) {
 					call, ok := v.(*ssa.Call)
 					return ok && call.Call.IsInvoke() && call.Call.Method.Name() == "Length"
 				}
-				if relEq(r, isLength, func(v ssa.Value) bool { return an.IsIntConst(v, 0) }) {
+				if relEq(r, isLength, func(v ssa.Value) bool { return an.IsIntConst(v, 0) }) || (r.Op == token.ILLEGAL && r.Truth && emptyRangePredicate(r.X) != nil) {
 					n++
 					// every return reachable from here returns (true, nil)
 					bad := false
@@ -449,6 +465,12 @@ func ruleX3(c *an.Ctx) {
 				heads = append(heads, hd.Instrs[0])
 			}
 		}
+		// the examination may live in a predicate helper (a loop or slices.ContainsFunc over the parts)
+		an.Instrs(disabled, func(in ssa.Instruction) {
+			if v, ok := in.(ssa.Value); ok && emptyRangePredicate(v) != nil {
+				heads = append(heads, in)
+			}
+		})
 		if len(heads) > 0 {
 			w := an.Query{Fn: disabled,
 				Target: func(in ssa.Instruction) bool {
@@ -546,4 +568,32 @@ func throughCell(v ssa.Value) ssa.Value {
 		return val
 	}
 	return v
+}
+
+// emptyRangePredicate: v is the boolean result of a call to a function of the same module that
+// compares a Length() result with zero (in its body, a closure of it, or a callee one level down):
+// "some part of the fork id ranges over nothing", written as a predicate.
+func emptyRangePredicate(v ssa.Value) *ssa.Function {
+	cl, ok := v.(*ssa.Call)
+	if !ok {
+		return nil
+	}
+	h := cl.Call.StaticCallee()
+	if h == nil || h.Blocks == nil || h.Signature.Results().Len() != 1 || !isBoolType(h.Signature.Results().At(0).Type()) {
+		return nil
+	}
+	isLength := func(v ssa.Value) bool {
+		call, ok := v.(*ssa.Call)
+		return ok && call.Call.IsInvoke() && call.Call.Method.Name() == "Length"
+	}
+	if an.MayDo(h, func(in ssa.Instruction) bool {
+		b, ok := in.(*ssa.BinOp)
+		if !ok || (b.Op != token.EQL && b.Op != token.NEQ) {
+			return false
+		}
+		return (isLength(b.X) && an.IsIntConst(b.Y, 0)) || (isLength(b.Y) && an.IsIntConst(b.X, 0))
+	}, 1) {
+		return h
+	}
+	return nil
 }
